@@ -11,6 +11,8 @@ use vm_memory::{
     VolatileMemory, VolatileSlice, WriteVolatile,
 };
 
+static mut MARK: u64 = 0;
+
 pub struct CopyExec {
     gm: GuestMemoryMmap<()>,
     heap: Vec<u8>,
@@ -59,6 +61,11 @@ impl Exec for CopyExec {
         let mut to_guest = true;
         let mut res = json!({"k": "ok"});
         access::start();
+        // machine-level runs (valgrind lackey): a store to MARK opens and closes the window of this library call
+        let mach = std::env::var("VMH_MACH").is_ok();
+        if mach {
+            unsafe { std::ptr::write_volatile(std::ptr::addr_of_mut!(MARK), 1) };
+        }
         let r = guarded(|| {
             match entry.as_str() {
                 "s_write" => drop(vs.write(lbuf, 0)),
@@ -161,16 +168,52 @@ impl Exec for CopyExec {
                         Err(_) => json!({"k": "err"}),
                     }
                 }),
-                "s_load" => with_atomic_ty!(n, T, {
+                "s_load" => {
+                    to_guest = false;
+                    with_atomic_ty!(n, T, {
                     res = match vs.load::<T>(0, Ordering::SeqCst) {
                         Ok(_) => json!({"k": "ok"}),
                         Err(_) => json!({"k": "err"}),
                     }
+                    })
+                }
+                "r_store" => with_atomic_ty!(n, T, {
+                    res = match region.store::<T>(from_bytes::<T>(lbuf), raddr, Ordering::SeqCst) {
+                        Ok(()) => json!({"k": "ok"}),
+                        Err(_) => json!({"k": "err"}),
+                    }
                 }),
+                "r_load" => {
+                    to_guest = false;
+                    with_atomic_ty!(n, T, {
+                    res = match region.load::<T>(raddr, Ordering::SeqCst) {
+                        Ok(_) => json!({"k": "ok"}),
+                        Err(_) => json!({"k": "err"}),
+                    }
+                    })
+                }
+                "g_store" => with_atomic_ty!(n, T, {
+                    res = match self.gm.store::<T>(from_bytes::<T>(lbuf), gaddr, Ordering::SeqCst) {
+                        Ok(()) => json!({"k": "ok"}),
+                        Err(_) => json!({"k": "err"}),
+                    }
+                }),
+                "g_load" => {
+                    to_guest = false;
+                    with_atomic_ty!(n, T, {
+                    res = match self.gm.load::<T>(gaddr, Ordering::SeqCst) {
+                        Ok(_) => json!({"k": "ok"}),
+                        Err(_) => json!({"k": "err"}),
+                    }
+                    })
+                }
                 e => panic!("harness: unknown copy entry {e}"),
             }
             json!(null)
         });
+        if mach {
+            unsafe { std::ptr::write_volatile(std::ptr::addr_of_mut!(MARK), 2) };
+        }
         let acc = access::take();
         if r.get("k").is_some() {
             res = r; // panic
@@ -190,7 +233,12 @@ impl Exec for CopyExec {
             }
             None => (gstart % 8, lp as usize % 8),
         };
-        json!({"op": "copy", "a": {"entry": entry, "n": n, "gmod": gmod, "lmod": lmod}, "r": {"res": res, "acc": list, "gres": gres, "lres": lres,
-               "to_guest": to_guest}})
+        let mut out = json!({"op": "copy", "a": {"entry": entry, "n": n, "gmod": gmod, "lmod": lmod}, "r": {"res": res, "acc": list, "gres": gres, "lres": lres,
+               "to_guest": to_guest}});
+        if mach {
+            out["r"]["mark"] = json!(std::ptr::addr_of!(MARK) as usize);
+            out["r"]["gstart"] = json!(gstart);
+        }
+        out
     }
 }
